@@ -59,6 +59,7 @@ type Val struct {
 	Fn    interface{} // *ssa.Function for known function values
 	Binds []Val
 	Recv  *Val // bound method receiver
+	SubOf string // for pointers to embedded struct fields: "<struct type key>.<field>"
 }
 
 func scalar(t Term, typ types.Type, k Kind) Val { return Val{K: k, T: t, Typ: typ} }
